@@ -5,7 +5,7 @@ import numpy as np
 from mc import alphabet as A
 from mc.refmodels import mixtures as M
 
-REGULAR_KINDS_ = ('generic', 'near_unit', 'emb_offset')      # data kinds on which no exception is acceptable
+REGULAR_KINDS_ = ('generic', 'near_unit', 'emb_offset', 'overlap')      # data kinds on which no exception is acceptable
 DEGENERATE_KINDS = ('zero_frame', 'all_zero', 'duplicated', 'rank1', 'n_lt_d', 'n1',
                     'scale_hi', 'scale_lo', 'mixed_scale')
 
@@ -31,6 +31,10 @@ def make_observation(seed, lead, N, D, kind, complex_, tag):
         proto = y[..., :2, :]
         y = proto[..., np.arange(N) % 2, :] + 0.03 * y
         y = y / np.linalg.norm(y, axis=-1, keepdims=True) * (1 + 4e-6 * r.choice([-2.0, -1.0, 1.0, 2.0], size=lead + (N, 1)))
+    elif kind == 'overlap':
+        # three overlapping clusters (EM converges slowly, but does converge within ~100 iterations)
+        proto = 1.5 * y[..., :3, :]
+        y = proto[..., np.arange(N) % 3, :] + 0.7 * y
     elif kind == 'zero_frame':
         y[..., 0, :] = 0
     elif kind == 'all_zero':
